@@ -335,6 +335,8 @@ func runJob3(j job) string {
 		return entBoth(j.data)
 	case "M3":
 		return encLine(j.data)
+	case "P3":
+		return progBoth(j.data)
 	case "E3":
 		var r string
 		mode := mp4.EncFragFileMode(j.cfg[3] - '0')
@@ -421,6 +423,10 @@ func cmdCorr3(seed uint64, n int, exh int) {
 		jobs = append(jobs, job{kind: "M3", cfg: "-", data: d})
 		metas = append(metas, "M\t")
 	}
+	for _, d := range genP3Inputs(r, n) {
+		jobs = append(jobs, job{kind: "P3", cfg: "-", data: d})
+		metas = append(metas, "P\t"+hx.Hex(d))
+	}
 	for _, pl := range []int{0, 1, 7, 300} {
 		for _, d := range [][]byte{mdat(pl), lmdat(pl)} {
 			jobs = append(jobs, job{kind: "M3", cfg: "-", data: d})
@@ -429,7 +435,9 @@ func cmdCorr3(seed uint64, n int, exh int) {
 	}
 	res := runJobs(jobs, nprocs())
 	for i, m := range metas {
-		if m[0] == 'M' {
+		if m[0] == 'P' {
+			fmt.Fprintf(out, "P\tp%d\t%s\t%s\n", i, m[2:], res[i])
+		} else if m[0] == 'M' {
 			if res[i] != "-" {
 				fmt.Fprintf(out, "M\tm%d\t%s\n", i, res[i])
 			}
@@ -507,6 +515,10 @@ func cmdSearch3(seed uint64, n int) {
 	for _, d := range genV3Inputs(r, n/40) {
 		jobs = append(jobs, job{kind: "X3", cfg: "-", data: d})
 		descs = append(descs, "entrypair:"+hx.Hex(d))
+	}
+	for _, d := range genP3Inputs(r, n/40) {
+		jobs = append(jobs, job{kind: "X3", cfg: "-", data: d})
+		descs = append(descs, "progpair:"+hx.Hex(d))
 	}
 	// file level: init segment + moof{mfhd, traf{tfhd, trun (every flag combination, 0..2 samples)[, senc]}} + mdat (compact / 16-byte header)
 	{
